@@ -111,6 +111,9 @@ func Run(p Program, scratch string) (out *Outcome) {
 	}()
 	stopWD := startWatchdog(in)
 	defer stopWD()
+	if p.Big {
+		out.class("multi_MiB_tables_mode")
+	}
 	if !in.openDB() {
 		return
 	}
@@ -128,28 +131,68 @@ func Run(p Program, scratch string) (out *Outcome) {
 	return
 }
 
-// HangHook is called (from the watchdog goroutine) when one program step did
-// not return for hangLimit; the foreground goroutine is stuck inside the
-// engine, so the process cannot continue with further cases.
-var HangHook func(step int, op string, dump string)
+// HangHook is called (from the watchdog goroutine) when one program step is stuck: the
+// foreground goroutine sits inside the engine and, by the goroutine dump, nothing that
+// belongs to the engine or this harness can run any more. The process cannot continue
+// with further cases.
+var HangHook func(step int, op string, dump string, deadlock bool)
 
-const hangLimit = 25 * time.Second
+const hangProbe = 45 * time.Second
+
+// stuckForGood: every goroutine with engine or harness frames is parked in a state that only
+// another goroutine can end (no timers involved), i.e. waiting longer cannot help.
+func stuckForGood(dump string) bool {
+	relevant, blocked := 0, 0
+	for _, g := range strings.Split(dump, "\n\n") {
+		if !strings.Contains(g, "B1NARY-GR0UP/originium") && !strings.Contains(g, "checks/dbsm.") {
+			continue
+		}
+		if strings.Contains(g, "startWatchdog") {
+			continue
+		}
+		nl := strings.IndexByte(g, '\n')
+		if nl < 0 {
+			continue
+		}
+		hdr := g[:nl]
+		relevant++
+		ok := false
+		for _, st := range []string{"[chan receive", "[chan send", "[select", "[semacquire", "[sync.Mutex.Lock", "[sync.RWMutex.RLock", "[sync.RWMutex.Lock", "[sync.Cond.Wait", "[sync.WaitGroup.Wait"} {
+			if strings.Contains(hdr, st) {
+				ok = true
+			}
+		}
+		if !ok || strings.Contains(g, "time.Sleep") || strings.Contains(g, "time.After") || strings.Contains(g, "(*Timer)") || strings.Contains(g, "(*Ticker)") {
+			return false
+		}
+		blocked++
+	}
+	return relevant > 0 && relevant == blocked
+}
 
 func startWatchdog(in *interp) func() {
 	in.beat.Store(time.Now().UnixNano())
 	stop := make(chan struct{})
 	go func() {
-		t := time.NewTicker(time.Second)
+		t := time.NewTicker(5 * time.Second)
 		defer t.Stop()
 		for {
 			select {
 			case <-stop:
 				return
 			case <-t.C:
-				if time.Since(time.Unix(0, in.beat.Load())) > hangLimit && HangHook != nil {
-					buf := make([]byte, 1<<20)
-					buf = buf[:runtime.Stack(buf, true)]
-					HangHook(in.step, in.opName(), string(buf))
+				idle := time.Since(time.Unix(0, in.beat.Load()))
+				if idle < hangProbe || HangHook == nil {
+					continue
+				}
+				buf := make([]byte, 2<<20)
+				buf = buf[:runtime.Stack(buf, true)]
+				if stuckForGood(string(buf)) {
+					HangHook(in.step, in.opName(), string(buf), true)
+					return
+				}
+				if idle > 20*time.Minute {
+					HangHook(in.step, in.opName(), string(buf), false)
 					return
 				}
 			}
@@ -203,14 +246,21 @@ func (in *interp) value(t *MTxn, vlen int) string {
 	}
 	t.nsets++
 	tok := fmt.Sprintf("%d.%d", t.no, t.nsets)
-	v := tok + strings.Repeat("x", vlen)
+	pad := string(in.p.Pad)
+	if pad == "" {
+		pad = "x"
+	}
+	v := tok + strings.Repeat(pad, vlen)
 	in.tokens[tok] = t.no
 	return v
 }
 
+// tokenOf: the leading "<txn>.<set>" of a value (everything up to the first padding byte).
 func tokenOf(v string) string {
-	if i := strings.IndexByte(v, 'x'); i >= 0 {
-		return v[:i]
+	for i := 0; i < len(v); i++ {
+		if (v[i] < '0' || v[i] > '9') && v[i] != '.' {
+			return v[:i]
+		}
 	}
 	return v
 }
